@@ -166,7 +166,8 @@ def evaluate(spec, hist, compare_admin=False):
                                        f"neither the old value nor the complete answer {sres.get('digest')}"))
                     else:
                         ov["ammo_tm"][str(op["ammo"])] = post.get("tm")
-                if res.get("kind") == "budget" and sres["kind"] != "budget":
+                if res.get("kind") == "budget" and res.get("what") == "steps" and sres["kind"] != "budget":
+                    # (the EVENT budget is only a memory/time guard of the tracing harness: exceeding it says nothing)
                     viol.append(_v("liveness.budget_exceeded_in_history_only", k, spec, ti, i,
                                    f"operation exceeded its deterministic {res.get('what')} budget in the simulated "
                                    f"history but terminates when executed solo"))
